@@ -142,17 +142,29 @@ class Graph(object):
             i1body.__name__ = "i1"
             i1body.__module__ = "verif_generated"
             i1 = datasource(d1, optional=[alt])(i1body)
-        i2, i3 = mkds("i2", HostArchiveContext), mkds("i3", HostContext)
+        def mkcls(name):
+            return type("%s_%d" % (name, u), (object,), {"__init__": lambda self, *a: None,
+                                                         "__module__": "verif_generated"})
+
+        q1 = parser(base.P)(mkcls("Q1"))
+        i2 = mkds("i2", HostArchiveContext)
+        # g.x: the implementation of the SECOND spec is a datasource built on a parser of the first spec
+        # (spec -> parser -> datasource -> other filterable spec); filters must not travel along that path
+        self.x = bool(g["x"]) if "x" in g else rng.random() < 0.5
+        if self.x:
+            def i3body(broker):
+                return None
+            i3body.__name__ = "i3"
+            i3body.__module__ = "verif_generated"
+            i3 = datasource(HostContext, q1)(i3body)
+        else:
+            i3 = mkds("i3", HostContext)
         type("FImplA%d" % u, (base,), {"P": i1, "P2": i3})
         type("FImplB%d" % u, (base,), {"P": i2})
         self.comp = {"P": base.P, "P2": base.P2, "I1": i1, "I2": i2, "I3": i3, "D1": d1, "D0": d0}
         self.extra = [alt]
 
-        def mkcls(name):
-            return type("%s_%d" % (name, u), (object,), {"__init__": lambda self, *a: None,
-                                                         "__module__": "verif_generated"})
-
-        self.comp["Q1"] = parser(base.P)(mkcls("Q1"))
+        self.comp["Q1"] = q1
         q2 = sorted(g["q2"])
         if len(q2) == 1:
             self.comp["Q2"] = parser(self.comp[q2[0]])(mkcls("Q2"))
@@ -193,7 +205,7 @@ def run_hist(case, rng):
                 events.append({"ev": "add", "k": op["k"], "pats": sorted(op["pats"]), "mx": op["mx"],
                                "raised": raised})
             else:
-                wm = rng.random() < 0.5
+                wm = bool(op["wm"]) if "wm" in op else rng.random() < 0.5
                 r = filters.get_filters(comp, with_matches=wm)
                 if wm:
                     ret = sorted([back.get(p, OTHER), int(b)] for p, b in r.items())
@@ -201,7 +213,7 @@ def run_hist(case, rng):
                     ret = sorted([back.get(p, OTHER), 0] for p in r)
                 events.append({"ev": "get", "c": op["k"], "wm": wm, "ret": ret})
         return {"id": case["id"], "kind": "hist", "g": {"p2f": bool(case["g"]["p2f"]), "q2": sorted(case["g"]["q2"]),
-                                                        "k": sorted(case["g"]["k"])}, "events": events}
+                                                        "k": sorted(case["g"]["k"]), "x": gr.x}, "events": events}
     finally:
         cleanup(gr.created)
 
